@@ -50,7 +50,7 @@ struct Ev {
 struct QE { int kind; int idx; uint64_t tie; };	// kind 0: event, 1: deferred callback
 struct Ctl { usec_t duration; std::deque<int> q; int timer_ev; };
 struct DC { bool exists = false; int act = A_NONE; int pri = 0; };
-struct Watch { bool exists = false; int kind = 0; };
+struct Watch { bool exists = false; int kind = 0; bool fresh = false; };	// fresh: created during the current pass over its own list
 
 struct Exp {
 	enum K { NONE, PREPARE, WAIT, CHECK, CB, RET } k = NONE;
@@ -375,6 +375,7 @@ struct Model {
 		if ((int)ws.size() <= slot) ws.resize(slot + 1);
 		ws[slot].exists = true;
 		ws[slot].kind = kind;
+		ws[slot].fresh = (ph == PREPARE && kind == 0) || (ph == CHECK && kind == 1);
 		worder[kind].push_back(slot);
 		return slot;
 	}
@@ -471,6 +472,7 @@ struct Model {
 				}
 				iterations++;
 				wpos = 0;
+				for (auto &w : ws) w.fresh = false;
 				ph = PREPARE;
 				break;
 			}
@@ -690,6 +692,12 @@ struct Model {
 		advance();
 	}
 	void watcher_exit() { advance(); }
+	// A watcher created during the pass over its own list may first run in this iteration or in
+	// the next one (documented: "no later than the next iteration"): skip it if the library did.
+	bool skip_optional_watcher() {
+		if ((exp.k == Exp::PREPARE || exp.k == Exp::CHECK) && exp.w >= 0 && ws[exp.w].fresh) { advance(); return true; }
+		return false;
+	}
 };
 
 }	// namespace evm
